@@ -85,9 +85,11 @@ func (RtErr) RuntimeError()   {}
 
 func (x *Exec) next() int64 { return atomic.AddInt64(&x.seq, 1) }
 
-// CheckCtx records a task whose context is not derived from the directive's.
+// CheckCtx records a task whose context is not the directive's (the very value the
+// directive was called with, not a context derived from it: one that the generated code
+// cancels when the directive returns is dead by the time a value bound to it is used).
 func (x *Exec) CheckCtx(id string, ctx context.Context) {
-	if ctx.Value(ctxKey{}) != x {
+	if ctx != x.Ctx {
 		x.mu.Lock()
 		x.CtxBad = append(x.CtxBad, id)
 		x.mu.Unlock()
@@ -606,6 +608,11 @@ func UseB(v *bshape.T) float64 { return float64(v.N) }
 func MkC() *clib.T             { return &clib.T{B: true} }
 func UseC(v *clib.T) bool      { return v.B }
 func Show(v interface{}) string { return fmt.Sprint(v) }
+
+// one type written in two ways
+func Bytes() []byte           { return []byte("xy") }
+func Sum(b []uint8) int32     { return int32(len(b)) }
+func Name(r rune) string      { return fmt.Sprint(r) }
 '''
 
 EXT_FLOWS = '''//go:build cff
@@ -628,6 +635,13 @@ func ExtB(x *Exec, conc int) ([]string, error) {
 	var out float64
 	err := cff.Flow(x.Ctx, cff.Params(MkB()), cff.Results(&out), cff.Task(UseB))
 	return []string{Show(out)}, err
+}
+
+// one type spelled in two ways by its provider and its consumer ([]byte / []uint8, int32 / rune)
+func ExtD(x *Exec, conc int) ([]string, error) {
+	var out string
+	err := cff.Flow(x.Ctx, cff.Params(Bytes()), cff.Results(&out), cff.Task(Sum), cff.Task(Name))
+	return []string{out}, err
 }
 
 // a package whose name (lib) is not the last element of its import path (.../c/v2)
